@@ -190,6 +190,18 @@ def mkcase(rng, lat, lon, dist_nm=None, order=None):
     base = rng.choice((0, 1446332400, 10, rng.randrange(0, 2**31)))
     gap = rng.choice((1, 2, 5, 9, 0.5, 0.4))
     te, to = (base + gap, base) if o == "e" else (base, base + gap) if o == "o" else (base, base)
+    c = _mk(rng, locals())
+    if c["dt"] is False and rng.random() < 0.12:
+        # plain numbers are just numbers: a clock that counts from its own start may read 0 for the NEWER frame and a negative
+        # value for the older one (or negative for both) - `t or default` / `t > 0` tests are wrong there
+        sh = max(te, to) if rng.random() < 0.6 else max(te, to) + rng.choice((0.25, 7, 1000.5))
+        c["te"], c["to"] = te - sh, to - sh
+    return c
+
+
+def _mk(rng, L):
+    lat, lon, lat1, lon1, te, to = L["lat"], L["lon"], L["lat1"], L["lon1"], L["te"], L["to"]
+    tc, rx = L.get("tc"), L.get("rx")
     return {"p0": [lat, lon], "p1": [lat1, lon1], "tc": tc, "ss": [rng.randrange(4), rng.randrange(4)], "saf": [rng.randrange(2), rng.randrange(2)],
             "alt": [rng.fill(12), rng.fill(12)], "tbit": [rng.randrange(2), rng.randrange(2)], "df": rng.choice((17, 17, 18)),
             "ca": [rng.randrange(8), rng.randrange(8)], "addr": rng.fill(24), "te": te, "to": to,
